@@ -30,6 +30,14 @@ type env struct {
 	dns   *dns_naming.DNSHandler
 	lease string
 	pend  [][]byte // emitted frames not yet reported
+	lazy  bool     // leave notifications queued in Session.C across packets (and scribbles)
+	slots []*slot  // one per step, filled when the channel is drained
+	given int      // notifications already attributed to a slot
+}
+
+type slot struct {
+	n    int
+	text string
 }
 
 var envSeq int64
@@ -82,8 +90,9 @@ func ipKey(a netip.Addr) string {
 // capacity per packet that is never touched again by the harness.
 // Returns the projected transcript (compared with the model) and the full transcript
 // (compared between the two runs).
-func runHistory(ops []op, shared bool, fill, stp byte) (string, string) {
+func runHistory(ops []op, shared bool, fill, stp byte, lazy bool) (string, string) {
 	e := newEnv()
+	e.lazy = lazy
 	defer e.close()
 	var buf []byte
 	if shared {
@@ -97,7 +106,38 @@ func runHistory(ops []op, shared bool, fill, stp byte) (string, string) {
 	}
 	proj = append(proj, e.dump())
 	full = append(full, e.dumpFull())
+	e.flush()
+	fix := func(x string) string {
+		for i, sl := range e.slots {
+			x = strings.ReplaceAll(x, fmt.Sprintf("\x01%d\x01", i), sl.text)
+		}
+		if strings.HasPrefix(x, "\x02") {
+			if x = x[1:]; x == "" {
+				x = "-"
+			}
+		}
+		return strings.ReplaceAll(x, "\x02", "")
+	}
+	for i := range proj {
+		proj[i] = fix(proj[i])
+		full[i] = fix(full[i])
+	}
 	return strings.Join(proj, "|"), strings.Join(full, "|")
+}
+
+// flush drains the notification channel and attributes the notifications to the steps that queued them.
+func (e *env) flush() {
+	for _, sl := range e.slots {
+		for ; sl.n > 0; sl.n-- {
+			select {
+			case n := <-e.s.C:
+				sl.text += "N(" + showNotification(n) + ")"
+			default:
+				sl.text += "N(lost)"
+			}
+		}
+	}
+	e.given = 0
 }
 
 // apply executes one operation and returns its projected and full outputs.
@@ -175,6 +215,27 @@ func (e *env) recv(p []byte, o *op) (async int, tag string) {
 	case packet.PayloadSSDP:
 		if name, _, err := e.dns.ProcessSSDP(frame.Host, frame.Ether(), frame.Payload()); err == nil && frame.Host != nil {
 			frame.Host.UpdateSSDPName(name)
+		}
+	}
+	// direct API calls of the application with views of the frame it is looking at
+	switch o.kind {
+	case 'c':
+		e.s.Capture(frame.SrcAddr.MAC)
+	case 'e':
+		e.s.Release(frame.SrcAddr.MAC)
+	case 'a', 'f':
+		if len(o.f) == 2 {
+			io, _ := parseLoc(o.f[0])
+			no, nl := parseLoc(o.f[1])
+			if io+4 <= len(p) && no+nl <= len(p) {
+				ip, _ := netip.AddrFromSlice(p[io : io+4])
+				name := packet.NameEntry{Type: "app", Name: string(p[no : no+nl])}
+				if o.kind == 'a' {
+					e.s.DHCPv4Update(frame.SrcAddr.MAC, ip, name)
+				} else {
+					e.s.SetDHCPv4IPOffer(frame.SrcAddr.MAC, ip, name)
+				}
+			}
 		}
 	}
 	e.s.Notify(frame)
@@ -282,14 +343,26 @@ func (e *env) outputsCat(async int, cat byte) (string, string) {
 		}
 	}
 	var ns, rs, ds, ps, fs []string
-	for {
-		select {
-		case n := <-e.s.C:
-			ns = append(ns, "N("+showNotification(n)+")")
-			continue
-		default:
+	if e.lazy {
+		// the notifications stay in the channel while later packets are processed and the buffer is scribbled;
+		// only their number is taken now
+		sl := &slot{n: len(e.s.C) - e.given}
+		e.given += sl.n
+		e.slots = append(e.slots, sl)
+		ns = append(ns, fmt.Sprintf("\x01%d\x01", len(e.slots)-1))
+		if len(e.s.C) > 64 {
+			e.flush()
 		}
-		break
+	} else {
+		for {
+			select {
+			case n := <-e.s.C:
+				ns = append(ns, "N("+showNotification(n)+")")
+				continue
+			default:
+			}
+			break
+		}
 	}
 	for _, f := range e.pend {
 		it, cat := classify(f)
@@ -325,6 +398,9 @@ func (e *env) outputsCat(async int, cat byte) (string, string) {
 	pj := strings.Join(items, "")
 	if pj == "" {
 		pj = "-"
+	}
+	if e.lazy { // "-" iff nothing at all, known only after the flush
+		pj = "\x02" + pj
 	}
 	return pj, pj + " F[" + strings.Join(fs, ",") + "]"
 }
@@ -466,7 +542,7 @@ func (e *env) hunt(key []byte) int {
 	}
 	n := 0
 	for _, l := range e.dhcp.VerifLeases() {
-		if l.Addr.IP == a {
+		if l.Addr.IP == a && l.SubnetID == "net1" {
 			n = 1
 		}
 	}
@@ -489,7 +565,7 @@ func (e *env) dump() string {
 		for _, h := range m.HostList {
 			ips = append(ips, ipKey(h.Addr.IP))
 		}
-		ms = append(ms, hx(m.MAC)+"["+strings.Join(ips, "+")+"]"+tf(m.Online)+":"+ipKey(m.IP4Offer)+":"+
+		ms = append(ms, hx(m.MAC)+"["+strings.Join(ips, "+")+"]"+tf(m.Online)+tf(m.Captured)+":"+ipKey(m.IP4Offer)+":"+
 			showNames(m.DHCP4Name, m.MDNSName, m.SSDPName, m.LLMNRName, m.NBNSName))
 	}
 	// lease table, sorted by key (= string(ClientID) at insertion; the hook reports ClientID)
@@ -497,7 +573,7 @@ func (e *env) dump() string {
 	leases := e.dhcp.VerifLeases()
 	sort.Slice(leases, func(i, j int) bool { return bytes.Compare(leases[i].ClientID, leases[j].ClientID) < 0 })
 	for _, l := range leases {
-		ls = append(ls, hx(l.ClientID)+"="+hx(l.ClientID)+"/"+hx(l.Addr.MAC)+"/"+hx(l.XID)+"/"+hstr(l.Name))
+		ls = append(ls, hx(l.ClientID)+"="+hx(l.ClientID)+"/"+hx(l.Addr.MAC)+"/"+hx(l.XID)+"/"+hstr(l.Name)+"/"+tf(l.SubnetID == "net2"))
 	}
 	// router table
 	e.icmp6.Lock()
@@ -544,8 +620,19 @@ func (e *env) dump() string {
 		}
 		dn = append(dn, hstr(ent.Name)+"{"+sortedVals(a4)+"/"+sortedVals(a6)+"/"+sortedVals(cn)+"/"+sortedVals(pt)+"}")
 	}
+	// mDNS response cache (verif hook), sorted by key
+	cache := e.dns.VerifMDNSCache()
+	sort.Slice(cache, func(i, j int) bool { return bytes.Compare(cache[i].Key, cache[j].Key) < 0 })
+	var cs []string
+	for _, c := range cache {
+		var es []string
+		for i := range c.Names {
+			es = append(es, hstr(c.Names[i])+"."+hx(c.MACs[i])+"."+hstr(c.Models[i]))
+		}
+		cs = append(cs, hx(c.Key)+"="+strings.Join(es, "+"))
+	}
 	return "H:" + strings.Join(hs, ",") + ";M:" + strings.Join(ms, ",") + ";L:" + strings.Join(ls, ",") +
-		";R:" + strings.Join(rs, ",") + ";D:" + strings.Join(dn, ",")
+		";R:" + strings.Join(rs, ",") + ";D:" + strings.Join(dn, ",") + ";C:" + strings.Join(cs, ",")
 }
 
 // sortedVals sorts "key\x00value" strings by key and returns the values joined by '+'.
@@ -608,6 +695,8 @@ func (e *env) dumpFull() string {
 	sort.Strings(dn)
 	pj, fl := e.outputs(0)
 	_ = pj
+	nw, _ := packet.VerifPingWaiters()
+	fl += fmt.Sprintf(" PW:%d", nw)
 	return e.dump() + " HF:" + strings.Join(hs, ",") + " MF:" + strings.Join(ms, ",") + " LF:" + strings.Join(ls, ",") +
 		" RF:" + strings.Join(rs, ",") + " DF:" + strings.Join(dn, ",") + " " + fl
 }
